@@ -136,6 +136,39 @@ def convexity(S, rep):
                        key="C16.e|%s" % inst, nontrivial=False)
 
 
+def factories_forward_options(S, rep):
+    """the create_* helpers hand their arguments to a simulator class: every parameter of such a helper is read (an unread
+    one is an option silently dropped, e.g. the CFL number falling back to the class default), and a parameter passed by
+    keyword under the name of another parameter of the helper is a transposition"""
+    import ast, os
+    from .c10 import class_index
+    idx = class_index(S.repo)
+    base = os.path.join(S.repo, "sopht", "simulator", "flow")
+    found = 0
+    for f in sorted(os.listdir(base)):
+        if not f.endswith(".py"):
+            continue
+        tree = ast.parse(open(os.path.join(base, f)).read())
+        for fn in [n for n in tree.body if isinstance(n, ast.FunctionDef)]:
+            calls = [c for c in ast.walk(fn) if isinstance(c, ast.Call) and isinstance(c.func, ast.Name) and c.func.id in idx]
+            if not calls:
+                continue
+            params = [a.arg for a in fn.args.posonlyargs + fn.args.args + fn.args.kwonlyargs]
+            read = {n.id for n in ast.walk(fn) if isinstance(n, ast.Name) and isinstance(n.ctx, ast.Load)}
+            found += 1
+            unread = [q for q in params if q not in read]
+            rep.ob("C16.w", "%s reads every one of its parameters" % fn.name, not unread,
+                   "parameter %s of %s is never used: the value the caller gives is dropped and %s runs with its own default" % (unread[0], fn.name, calls[0].func.id)
+                   if unread else "%d parameters, all used" % len(params), key="C16.w|factory|%s|unread|%s" % (fn.name, unread), nontrivial=False)
+            swapped = [(k.arg, k.value.id) for c in calls for k in c.keywords
+                       if k.arg and isinstance(k.value, ast.Name) and k.value.id in params and k.arg in params and k.arg != k.value.id]
+            rep.ob("C16.w", "%s passes each parameter under its own name" % fn.name, not swapped,
+                   "%s receives %s=%s" % (calls[0].func.id, swapped[0][0], swapped[0][1]) if swapped else "keywords and values agree",
+                   key="C16.w|factory|%s|swapped|%s" % (fn.name, swapped), nontrivial=False)
+    if found < 2:
+        raise Unsupported("expected the create_unbounded_flow_simulator_2d/3d helpers, found %d factory functions" % found)
+
+
 def run(S, tier, rep):
     rep.rule_text = ("abstract evaluation of compute_stable_timestep for the three simulator classes; sign analysis (all symbols positive, "
                      "V >= 0) of the rational functions dt*V/dx - cfl and nu*dt/dx^2 - 0.9/(2 dim); weights of the extracted diffusion update")
@@ -145,5 +178,6 @@ def run(S, tier, rep):
     convexity(S, rep)
     from .c10 import wrappers_forward_options
     wrappers_forward_options(S, rep, rule="C16.w", family_root="FlowSimulator", min_found=3)
+    factories_forward_options(S, rep)
     rep.require_min("C16.c", 15)
     rep.require_min("C16.d", 5)
